@@ -1,6 +1,6 @@
 #!/bin/sh
 # run every check's quick command on the current tree; prints one summary line each
-cd /verif || exit 2
+cd "$(dirname "$0")/.." || exit 2
 for c in C01 C02 C03 C04 C05 C06 C07 C08 C09 C10 C11 C12 C13 C14 C15 C16 C17 C18 C19; do
   ./check $c --tier ${1:-quick} 2>&1 | grep -E "^VIOLATION|^KNOWN-FINDING|^C[0-9]+:" | tail -3
 done
